@@ -18,7 +18,7 @@ fn msgs() -> Vec<String> {
 fn footers() -> Vec<Option<String>> {
     vec![None, Some("".into()), Some("f".into()), Some("ok?".into()), Some("id~".into()), Some(" ".into()), Some("\n".into()), Some("\u{1F511}".into()),
          Some("{\"kid\":\"k1\"}".into()), Some("F".repeat(130)), Some("g".repeat(256)), Some("ab".into()), Some("abc".into()), Some("abcd".into()), Some("L".repeat(9000)),
-         Some("printer.local.".into()), Some("{\"iss\":\"auth.local.example.org\"}".into()), Some("vault:app.secret.signing-key/v3".into()), Some("k4.local-pw.x".into()), Some("k4.lid.abc".into()), Some("{}}".into()), Some("[[".into()), Some("L".repeat(6145))]
+         Some("printer.local.".into()), Some("{\"iss\":\"auth.local.example.org\"}".into()), Some("vault:app.secret.signing-key/v3".into()), Some("k4.local-pw.x".into()), Some("k4.lid.abc".into()), Some("{}}".into()), Some("[[".into()), Some("L".repeat(6145)), Some("{\"kid\": \"key-1\"}".into()), Some("{\"b\":1,\"a\":2}".into()), Some("{ }".into()), Some(" {\"kid\":\"k\"} ".into()), Some("{\"k\":1.0}".into()), Some("{\"k\":\"\\u0041\"}".into())]
 }
 fn fstr(f: &Option<String>) -> &str { f.as_deref().unwrap_or("") }
 fn key32(b: u8) -> Key<32> { let mut k = [b; 32]; k[0] = 7; Key::<32>::from(k) }
@@ -163,10 +163,13 @@ fn tampered(t: &str) -> Vec<(String, String)> {
     } else {
         out.push(("footer segment of 256 chars added".into(), format!("{t}.{}", "A".repeat(256))));
         out.push(("footer segment 'Zm9v' added".into(), format!("{t}.Zm9v")));
+        for seg in ["!", "A", "@@@@", "Zm9v=", "Zm9", "=", "%20", "\u{20ac}", " "] { out.push((format!("malformed footer segment {seg:?} added"), format!("{t}.{seg}"))); }
     }
     for (what, extra) in [("one more empty segment ('.' appended)", "."), ("a segment 'AAAA' appended", ".AAAA"), ("two empty segments appended", ".."), ("segments '.x.y.z' appended", ".x.y.z"), ("'..junk' appended", "..junk")] {
         // (a single trailing '.' after a footer-less token is the tolerated empty footer segment; the caller filters that case)
         out.push((format!("{what}"), format!("{t}{extra}"))); }
+    if let Some(d) = R::unb64(parts[2]) { if let Some(ix) = d.windows(3).position(|w| w == [0xEF, 0xBF, 0xBD]) { for bad in [vec![0xFFu8], vec![0xC0], vec![0x80], vec![0xEF, 0xBF]] { let mut e = d[..ix].to_vec(); e.extend_from_slice(&bad); e.extend_from_slice(&d[ix + 3..]);
+        let mut s = format!("{hdr}{}", R::b64(&e)); if parts.len() == 4 { s.push('.'); s.push_str(parts[3]); } out.push((format!("the bytes EF BF BD (U+FFFD) at offset {ix} of the decoded payload replaced by {bad:02x?}"), s)); } } }
     if parts[2].contains('-') || parts[2].contains('_') { let alt = parts[2].replace('-', "+").replace('_', "/"); let mut s = format!("{hdr}{alt}"); if parts.len() == 4 { s.push('.'); s.push_str(parts[3]); } out.push(("payload text rewritten in the standard base64 alphabet (+ and / for - and _)".into(), s)); }
     for (from, to) in [('-', '+'), ('_', '/')] { if let Some(ix) = parts[2].find(from) { let mut alt = parts[2].to_string(); alt.replace_range(ix..ix + 1, &to.to_string()); let mut s = format!("{hdr}{alt}"); if parts.len() == 4 { s.push('.'); s.push_str(parts[3]); } out.push((format!("first {from:?} of the payload text replaced by {to:?}"), s)); } }
     if parts.len() == 4 && (parts[3].contains('-') || parts[3].contains('_')) { out.push(("footer segment rewritten in the standard base64 alphabet".into(), format!("{hdr}{}.{}", parts[2], parts[3].replace('-', "+").replace('_', "/")))); }
@@ -234,7 +237,7 @@ fn c03() {
 #[cfg(feature = "main_set")]
 fn public_tamper() {
     let (kp, pk) = R::ed_keypair(9);
-    for m in ["", "{\"a\":1}", &"x".repeat(64)] { for f in [None, Some("ft"), Some(" "), Some("\n")] {
+    for m in ["", "{\"a\":1}", &"x".repeat(64), "a\u{fffd}b", "{\"n\":\"\u{fffd}\"}"] { for f in [None, Some("ft"), Some(" "), Some("\n")] {
         let k64 = lkv(Key::<64>::from(kp)); let k32 = lkv(Key::<32>::from(pk));
         let sk = PasetoAsymmetricPrivateKey::<V4, Public>::from(k64); let pkk = lkv(PasetoAsymmetricPublicKey::<V4, Public>::from(k32));
         let mut b = Paseto::<V4, Public>::builder(); b.set_payload(Payload::from(m)); if let Some(f) = f { b.set_footer(Footer::from(f)); }
@@ -479,6 +482,24 @@ fn c05() {
         let want = if fstr(&f).is_empty() { 3 } else { 4 };
         if seg.len() != want || (want == 4 && seg[3] != R::b64(fstr(&f).as_bytes())) { return wit(format!("C05 v{v}.local footer segment of the token for footer {:?} is not base64url(footer): {t}", f)); }
     }}}
+    // the same matrix at the generic and batteries-included layers (local and public): accepted iff the expected footer is byte-equal; the segment is base64url(footer)
+    { let fs: Vec<Option<&'static str>> = vec![None, Some(""), Some("ft"), Some("ft "), Some(" ft"), Some("ft\n"), Some("FT"), Some("kid-7"), Some("kid-7\t"), Some("{\"kid\": \"k\"}"), Some("{\"kid\":\"k\"}"), Some("{\"b\":1,\"a\":2}"), Some("{\"a\":2,\"b\":1}"), Some(" ")];
+      let key = lkv(PasetoSymmetricKey::<V4, Local>::from(key32(1))); let (kp, pk) = R::ed_keypair(9); let sk = lkv(PasetoAsymmetricPrivateKey::<V4, Public>::from(lkv(Key::<64>::from(kp)))); let pkk = lkv(PasetoAsymmetricPublicKey::<V4, Public>::from(lkv(Key::<32>::from(pk))));
+      for f in &fs { for layer in 0..4 {
+        let t = match layer { 0 => { let mut b = GenericBuilder::<V4, Local>::default(); b.set_claim(AudienceClaim::from("a")); if let Some(f) = f { b.set_footer(Footer::from(*f)); } b.try_encrypt(key) }
+                              1 => { let mut b = PasetoBuilder::<V4, Local>::default(); if let Some(f) = f { b.set_footer(Footer::from(*f)); } b.build(key) }
+                              2 => { let mut b = GenericBuilder::<V4, Public>::default(); b.set_claim(AudienceClaim::from("a")); if let Some(f) = f { b.set_footer(Footer::from(*f)); } b.try_sign(sk) }
+                              _ => { let mut b = PasetoBuilder::<V4, Public>::default(); if let Some(f) = f { b.set_footer(Footer::from(*f)); } b.build(sk) } };
+        let name = ["GenericBuilder/GenericParser<V4,Local>", "PasetoBuilder/PasetoParser<V4,Local>", "GenericBuilder/GenericParser<V4,Public>", "PasetoBuilder/PasetoParser<V4,Public>"][layer];
+        let t = match t { Ok(t) => lk(&t), Err(e) => return wit(format!("C05 {name}: build with footer {f:?} fails: {e}")) };
+        let seg: Vec<&str> = t.split('.').collect(); let fb = f.unwrap_or("");
+        if (fb.is_empty() && seg.len() != 3) || (!fb.is_empty() && (seg.len() != 4 || seg[3] != R::b64(fb.as_bytes()))) { return wit(format!("C05 {name}: the token built with footer {f:?} does not carry base64url(footer) as its footer segment: {t}")); }
+        for f2 in &fs { let same = fb == f2.unwrap_or("");
+            let ok = match layer { 0 => { let mut p = GenericParser::<V4, Local>::default(); if let Some(x) = f2 { p.set_footer(Footer::from(*x)); } p.parse(t, key).is_ok() }
+                                   1 => { let mut p = PasetoParser::<V4, Local>::default(); if let Some(x) = f2 { p.set_footer(Footer::from(*x)); } p.parse(t, key).is_ok() }
+                                   2 => { let mut p = GenericParser::<V4, Public>::default(); if let Some(x) = f2 { p.set_footer(Footer::from(*x)); } p.parse(t, pkk).is_ok() }
+                                   _ => { let mut p = PasetoParser::<V4, Public>::default(); if let Some(x) = f2 { p.set_footer(Footer::from(*x)); } p.parse(t, pkk).is_ok() } };
+            if ok != same { return wit(format!("C05 {name}: a token built with footer {f:?}, parser expecting footer {f2:?}: accepted = {ok} (must be {same})")); } } } } }
     footer_rebinding("C05");
     // a footer must not be exchangeable for an implicit assertion of the same bytes (and vice versa)
     for v in 3..=4u8 { for x in ["X", "kid-7", "{\"a\":1}"] {
@@ -491,8 +512,8 @@ fn c05() {
 }
 #[cfg(feature = "main_set")]
 fn c06() {
-    let ias = [None, Some("".to_string()), Some("a".to_string()), Some("ab".to_string()), Some("a ".to_string()), Some(" a".to_string()), Some("a\n".to_string()), Some(" ".to_string()), Some("tenant-id:1001".repeat(10)), Some(format!("{}2", &"tenant-id:1001".repeat(10)[..139])), Some("{\"x\":1}".to_string()), Some("z".repeat(200))];
-    for v in 3..=4u8 { for i in ias.iter().take(6) { for i2 in ias.iter().take(6) { let t = match local::enc(v, 1, 2, "", &None, i, false) { Ok(t) => t, Err(_) => continue };
+    let ias = [None, Some("".to_string()), Some("a".to_string()), Some("{}".to_string()), Some("[]".to_string()), Some("null".to_string()), Some("ab".to_string()), Some("a ".to_string()), Some(" a".to_string()), Some("a\n".to_string()), Some(" ".to_string()), Some("tenant-id:1001".repeat(10)), Some(format!("{}2", &"tenant-id:1001".repeat(10)[..139])), Some("{\"x\":1}".to_string()), Some("z".repeat(200))];
+    for v in 3..=4u8 { for i in ias.iter().take(9) { for i2 in ias.iter().take(9) { let t = match local::enc(v, 1, 2, "", &None, i, false) { Ok(t) => t, Err(_) => continue };
         let same = i.as_deref().unwrap_or("") == i2.as_deref().unwrap_or(""); let r = local::dec(v, 1, &t, &None, i2);
         if r.is_ok() != same { return wit(format!("C06 v{v}.local token of the EMPTY message built with assertion {:?} presented with {:?} -> {:?}", i, i2, r.map_err(|e| format!("{e:?}")))); } } } }
     for v in 3..=4u8 { for i in &ias { for i2 in &ias { for f in [None, Some("ft".to_string())] {
@@ -524,7 +545,7 @@ fn c06() {
             if local::dec(v, 1, &t, &None, &Some(format!("{a}x"))).is_ok() || (l > 0 && local::dec(v, 1, &t, &None, &Some(a[..l - 1].to_string())).is_ok()) { return wit(format!("C06 v{v}.local token built with a {l}-byte assertion is accepted with an assertion one byte longer / shorter")); } } } }
     // v4.public at the core layer: footer absent or present x assertion pairs, both call forms of "no footer"
     { let (kp, pk) = R::ed_keypair(9); let k64 = lkv(Key::<64>::from(kp)); let k32 = lkv(Key::<32>::from(pk)); let sk = PasetoAsymmetricPrivateKey::<V4, Public>::from(k64); let pkk = PasetoAsymmetricPublicKey::<V4, Public>::from(k32);
-      for f in [None, Some("ft")] { for i in ias.iter().take(7) { for i2 in ias.iter().take(7) {
+      for f in [None, Some("ft")] { for i in ias.iter().take(10) { for i2 in ias.iter().take(10) {
         let mut b = Paseto::<V4, Public>::builder(); b.set_payload(Payload::from("{\"a\":1}")); if let Some(f) = f { b.set_footer(Footer::from(f)); } if let Some(i) = i { b.set_implicit_assertion(ImplicitAssertion::from(lk(i))); }
         let t = match b.try_sign(&sk) { Ok(t) => t, Err(_) => continue };
         let same = i.as_deref().unwrap_or("") == i2.as_deref().unwrap_or("");
@@ -580,6 +601,7 @@ fn c08() {
             o => return wit(format!("C08 v{v}.local token differs from the specification's algorithm for message len {} footer {:?} assertion {:?}: library {:?} spec {want}", m.len(), f, i, o)),
         }
         if let Err(e) = local::dec(v, 1, &want, &f, &i) { return wit(format!("C08 v{v}.local rejects the specification's token for message len {} footer {:?}: {e:?}", m.len(), f)); }
+        if m.len() < 3 && f.is_none() { match local::enc(v, 1, 2, &m, &f, &i, true) { Ok(t) if t == want => {}, o => return wit(format!("C08 v{v}.local: the SECOND try_encrypt from one core builder with the same nonce value gives {o:?}, the specification's token is {want}")) } }
     }}}}
     for v in 1..=4u8 { for n in [4095usize, 4096, 4097, 5000, 8192, 8193, 20_000] { let m = "q".repeat(n); let want = local::reference(v, 1, 2, &m, &None, &None);
         match local::enc(v, 1, 2, &m, &None, &None, false) { Ok(t) if t == want => {}, o => return wit(format!("C08 v{v}.local token of a {n}-byte message differs from the specification's algorithm (first difference at text offset {:?})", o.ok().map(|t| t.bytes().zip(want.bytes()).position(|(a, b)| a != b)))) }
@@ -646,10 +668,17 @@ fn c09() {
     { let k4096 = lkv(rsakeys::rsa4096_public()); let pool = rsakeys::pool(); let k2048 = lkv(pool[1].1.clone());
       for kb in [&k4096[..], &k2048[..], &k4096[..40], &[][..]] { for n in (0..=1100usize).step_by(1) { if n > 600 && n % 50 != 0 { continue; } let s = format!("v1.public.{}", R::b64(&vec![7u8; n]));
           if !no_panic(AssertUnwindSafe(|| { let _ = Paseto::<V1, Public>::try_verify(&s, &PasetoAsymmetricPublicKey::<V1, Public>::from(kb), None); })) { return wit(format!("C09 Paseto::<V1,Public>::try_verify panics on a {n}-byte payload under a {}-byte verifying key", kb.len())); } } } }
-    for claim in ["exp", "nbf", "iat"] { for val in ["9999-12-31T23:59:59Z", "9999-12-31T23:59:59.999999999Z", "9999-12-31T23:59:59-23:59", "9999-12-31T23:59:59+23:59", "0000-01-01T00:00:00Z", "0000-01-01T00:00:00+23:59", "0001-01-01T00:00:00-23:59", "1970-01-01T00:00:00Z", "2038-01-19T03:14:08Z"] {
+    for claim in ["exp", "nbf", "iat"] { for val in ["2023-02-30T00:00:00Z", "2023-02-31T12:00:00+00:00", "2023-04-31T00:00:00Z", "2023-01-01T24:00:00Z", "2023-01-01T23:59:60Z", "2016-12-31T23:59:60+00:00", "2023-01-01T00:00:00+24:00", "2023-01-01T00:00:00-99:99", "2023-13-01T00:00:00Z", "0000-00-00T00:00:00Z", "2023-01-01T25:61:61Z", "9999-12-31T23:59:59Z", "9999-12-31T23:59:59.999999999Z", "9999-12-31T23:59:59-23:59", "9999-12-31T23:59:59+23:59", "0000-01-01T00:00:00Z", "0000-01-01T00:00:00+23:59", "0001-01-01T00:00:00-23:59", "1970-01-01T00:00:00Z", "2038-01-19T03:14:08Z"] {
         let (t, key) = v4tok(&format!("{{\"{claim}\":\"{val}\"}}"));
         if !no_panic(AssertUnwindSafe(|| { let _ = PasetoParser::<V4, Local>::default().parse(lk(&t), key); })) { return wit(format!("C09 PasetoParser::<V4,Local>::parse panics on an authentic token whose {claim} is {val:?}")); }
         if !no_panic(AssertUnwindSafe(|| { let _ = GenericParser::<V4, Local>::default().parse(lk(&t), key); })) { return wit(format!("C09 GenericParser::<V4,Local>::parse panics on an authentic token whose {claim} is {val:?}")); } } }
+    // long claim values with a multi-byte character at every offset up to 140: time claims that are not dates, expected claims that differ
+    for off in 0..=140usize { for ch in ["\u{e9}", "\u{20ac}", "\u{1F511}"] { let v = format!("{}{ch}{}", "x".repeat(off), "y".repeat(150));
+        let (t, key) = v4tok(&format!("{{\"exp\":{0},\"nbf\":{0},\"iat\":{0},\"aud\":{0},\"k\":{0}}}", serde_json::to_string(&v).unwrap()));
+        if !no_panic(AssertUnwindSafe(|| { let _ = PasetoParser::<V4, Local>::default().parse(lk(&t), key); })) { return wit(format!("C09 PasetoParser::<V4,Local>::parse panics on an authentic token whose exp/nbf/iat are a {}-byte non-date string with {ch:?} at byte {off}", v.len())); }
+        if !no_panic(AssertUnwindSafe(|| { let mut p = GenericParser::<V4, Local>::default(); p.check_claim(AudienceClaim::from("other")); let _ = p.parse(lk(&t), key);
+            let mut p = GenericParser::<V4, Local>::default(); p.check_claim(CustomClaim::try_from(("k", lk(&format!("{v}z")))).unwrap()); let _ = p.parse(lk(&t), key);
+            let mut p = PasetoParser::<V4, Local>::default(); p.check_claim(AudienceClaim::from(lk(&format!("z{v}")))); let _ = p.parse(lk(&t), key); })) { return wit(format!("C09 a parser expecting another aud / k panics on an authentic token whose values are {}-byte strings with {ch:?} at byte {off}", v.len())); } } }
     // authentic tokens whose payload is not a JSON object (what a bare core builder produces), presented to the parser layers
     for pl in ["", " ", "\n", "\t \n", "[]", "1", "null", "\"x\"", "{", "}", "{\"a\":", "\u{feff}", "\u{feff}{}", " {}", "{} ", "\0", "\u{20ac}"] {
         let (t, key) = v4tok(pl);
@@ -738,6 +767,18 @@ fn c11_c12(which: &str) {
     let mut cases: Vec<(String, bool)> = vec![]; // (json value text, must_accept) for exp; reversed for nbf
     for o in offs { for fr in [false, true] { for d in past { cases.push((format!("\"{}\"", fmt(now - d, o, fr)), false)); } for d in fut { cases.push((format!("\"{}\"", fmt(now + d, o, fr)), true)); } } }
     let bad = ["12345", "true", "false", "[1]", "{\"a\":1}", "\"\"", "\" \"", "\"garbage\"", "\"2019-01-01\"", "0", "1.5", "[]", "{}", "4102444800", "99999999999", "1e12", "-1", "\"4102444800\"", "\"2019-01-01T00:00Z\"", "\"20190101T000000Z\"", "\"2019-01-01\"", "\"2019-01-01T00:00:00\"", "\"2999-01-01T00:00Z\"", "\"29990101T000000Z\"", "\"2999-001T00:00:00Z\""];
+    // the registered claim decides, whatever look-alike members (other case, padded, dotted) sit next to it
+    { let bad_exp = "2000-01-01T00:00:00Z"; let good = "2999-01-01T00:00:00Z"; let bad_nbf = "2999-01-01T00:00:00Z"; let good_nbf = "2000-01-01T00:00:00Z";
+      for alias in ["Exp", "EXP", "eXp", " exp", "exp ", "exp.", "Expiration", "exp\u{0}"] {
+        let (t, key) = v4tok(&format!("{{\"exp\":\"{bad_exp}\",{}:\"{good}\"}}", serde_json::to_string(alias).unwrap()));
+        if which == "C11" && PasetoParser::<V4, Local>::default().parse(lk(&t), key).is_ok() { return wit(format!("C11 default PasetoParser accepts a token whose exp is {bad_exp} because a member {alias:?} = {good} is also present")); }
+        let (t2, _) = v4tok(&format!("{{{}:\"{good}\",\"exp\":\"{bad_exp}\"}}", serde_json::to_string(alias).unwrap()));
+        if which == "C11" && PasetoParser::<V4, Local>::default().parse(lk(&t2), key).is_ok() { return wit(format!("C11 default PasetoParser accepts a token whose exp is {bad_exp} because a member {alias:?} = {good} precedes it")); }
+        let nalias = alias.replace("exp", "nbf").replace("Exp", "Nbf").replace("EXP", "NBF").replace("eXp", "nBf");
+        let (t3, _) = v4tok(&format!("{{\"nbf\":\"{bad_nbf}\",{}:\"{good_nbf}\"}}", serde_json::to_string(&nalias).unwrap()));
+        if which == "C12" && PasetoParser::<V4, Local>::default().parse(lk(&t3), key).is_ok() { return wit(format!("C12 default PasetoParser accepts a token whose nbf is {bad_nbf} because a member {nalias:?} = {good_nbf} is also present")); }
+        let (t4, _) = v4tok(&format!("{{\"exp\":\"{good}\",\"nbf\":\"{good_nbf}\",{}:\"{bad_exp}\",{}:\"{bad_nbf}\"}}", serde_json::to_string(alias).unwrap(), serde_json::to_string(&nalias).unwrap()));
+        if let Err(e) = PasetoParser::<V4, Local>::default().parse(lk(&t4), key) { return wit(format!("{which} default PasetoParser rejects a token with valid exp and nbf because of look-alike members {alias:?} / {nalias:?}: {e}")); } } }
     // tokens that carry exp AND nbf (and iat), each rendered with its own offset: valid windows are accepted, an expired or not-yet-valid one is refused
     { let m10 = time::Duration::minutes(10);
       for o1 in offs { for o2 in offs { for (nbf_t, exp_t, ok) in [(now - m10, now + m10, true), (now - m10 - m10, now - m10, false), (now + m10, now + m10 + m10, false), (now - time::Duration::days(2), now + time::Duration::days(2), true)] {
@@ -878,6 +919,11 @@ fn claims_between_builds(pid: &str) {
       let _ = b.try_encrypt(&key);
       let mut more: HashMap<String, Box<dyn erased_serde::Serialize>> = HashMap::new(); more.insert("ext".to_string(), Box::new(7)); b.extend_claims(more); b.remove_claim("gone");
       if let Ok(t) = b.try_encrypt(&key) { match GenericParser::<V4, Local>::default().parse(lk(&t), key) { Ok(j) => { if j != json!({"a": 1, "ext": 7}) { return wit(format!("{pid} build, then extend_claims({{ext:7}}) and remove_claim(gone), then build again: the second token holds {j} instead of {{a:1, ext:7}}")); } } Err(e) => return wit(format!("{pid} second build does not parse: {e}")) } }
+      { use std::collections::HashMap; for (k, v) in [("user", json!({"user": "morty"})), ("a", json!({"a": {"a": 1}})), ("x", json!({"y": 1})), ("n", json!([{"n": 1}])), ("e", json!({})), ("s", json!("s"))] {
+          let mut g = GenericBuilder::<V4, Local>::default(); let mut m: HashMap<String, Box<dyn erased_serde::Serialize>> = HashMap::new(); m.insert(k.to_string(), Box::new(v.clone())); g.extend_claims(m);
+          if let Ok(t) = g.try_encrypt(&key) { match GenericParser::<V4, Local>::default().parse(lk(&t), key) { Ok(j) => { if j != json!({k: v.clone()}) { return wit(format!("{pid} extend_claims({{{k}: {v}}}) then build: the parsed token holds {j}")); } } Err(e) => return wit(format!("{pid} extend_claims({{{k}: {v}}}): the token does not parse: {e}")) } }
+          let mut g = GenericBuilder::<V4, Local>::default(); g.set_claim(CustomClaim::try_from((k, v.clone())).unwrap());
+          if let Ok(t) = g.try_encrypt(&key) { match GenericParser::<V4, Local>::default().parse(lk(&t), key) { Ok(j) => { if j != json!({k: v.clone()}) { return wit(format!("{pid} set_claim({k} = {v}) then build: the parsed token holds {j}")); } } Err(e) => return wit(format!("{pid} set_claim({k} = {v}): the token does not parse: {e}")) } } } }
       b.set_claim(CustomClaim::try_from(("late", true)).unwrap());
       if let Ok(t) = b.try_encrypt(&key) { match GenericParser::<V4, Local>::default().parse(lk(&t), key) { Ok(j) => { if j != json!({"a": 1, "ext": 7, "late": true}) { return wit(format!("{pid} third build after set_claim(late): the token holds {j}")); } } Err(e) => return wit(format!("{pid} third build does not parse: {e}")) } } }
 }
@@ -919,7 +965,7 @@ fn c14() {
     { let mut b = GenericBuilder::<V4, Local>::default(); b.set_claim(CustomClaim::try_from(("dup", 1)).unwrap()); b.set_claim(CustomClaim::try_from(("dup\u{feff}", 2)).unwrap());
       if let Ok(t) = b.try_encrypt(&key) { match GenericParser::<V4, Local>::default().parse(lk(&t), key) { Ok(j) => { if j != json!({"dup": 1, "dup\u{feff}": 2}) { return wit(format!("C14 claims dup=1 and dup<U+FEFF>=2 were set but the parsed token holds {j}")); } } Err(e) => return wit(format!("C14 parse failed for keys differing by U+FEFF: {e}")) } } }
     // registered claims through their typed constructors, including empty strings
-    for val in ["", "v", " ", "\u{feff}"] { let mut b = GenericBuilder::<V4, Local>::default();
+    for val in ["", "v", " ", "\u{feff}", "Acme, Inc.", "a,b", "billing,shipping", ",", "a;b", "a b", "[\"a\"]", "{\"a\":1}", "null", "true", "12", "https://x.example/a?b=c,d"] { let mut b = GenericBuilder::<V4, Local>::default();
         b.set_claim(IssuerClaim::from("first")); b.set_claim(IssuerClaim::from(val)); b.set_claim(TokenIdentifierClaim::from(val)); b.set_claim(SubjectClaim::from(val)); b.set_claim(AudienceClaim::from(val));
         b.set_claim(ExpirationClaim::try_from("2999-01-01T00:00:00Z").unwrap()); b.set_claim(NotBeforeClaim::try_from("2000-01-01T00:00:00.5+01:00").unwrap()); b.set_claim(IssuedAtClaim::try_from("2000-01-01T00:00:00Z").unwrap());
         if let Ok(t) = b.try_encrypt(&key) { match GenericParser::<V4, Local>::default().parse(lk(&t), key) { Ok(j) => { let want = json!({"iss": val, "jti": val, "sub": val, "aud": val, "exp": "2999-01-01T00:00:00Z", "nbf": "2000-01-01T00:00:00.5+01:00", "iat": "2000-01-01T00:00:00Z"}); if j != want { return wit(format!("C14 registered claims set through their typed constructors {want} but the parsed token holds {j}")); } } Err(e) => return wit(format!("C14 parse failed for registered claims with value {val:?}: {e}")) } } }
@@ -963,6 +1009,16 @@ fn c15() {
         exp!("scope=\"\" (token has scope=admin)", CustomClaim::try_from(("scope", "")).unwrap(), false);
         exp!("empty=\"\" (token has empty=\"\")", CustomClaim::try_from(("empty", "")).unwrap(), true);
         exp!("missing=\"\" (absent)", CustomClaim::try_from(("missing", "")).unwrap(), false); } }
+    // expected string claims are compared as the strings they are (commas, brackets, digits are just characters)
+    { for val in ["billing,shipping", "customers,", "Acme, Inc.", "[\"a\"]", "12", "true", "null"] { let t_s = v4tok(&format!("{{\"aud\":{},\"sub\":{}}}", serde_json::to_string(val).unwrap(), serde_json::to_string(val).unwrap())).0;
+        let arr: Vec<&str> = val.split(',').map(|x| x.trim()).filter(|x| !x.is_empty()).collect(); let t_a = v4tok(&format!("{{\"aud\":{},\"sub\":{}}}", serde_json::to_string(&arr).unwrap(), serde_json::to_string(&arr).unwrap())).0;
+        let t_p = v4tok(&format!("{{\"aud\":{val},\"sub\":{val}}}")).0;   // the same text as raw JSON (number / bool / null / array) where it is JSON at all
+        for layer in 0..2 { for which_claim in 0..2 { macro_rules! run { ($tok:expr) => {{ if layer == 0 { let mut p = GenericParser::<V4, Local>::default(); if which_claim == 0 { p.check_claim(AudienceClaim::from(lk(val))); } else { p.check_claim(SubjectClaim::from(lk(val))); } p.parse(lk($tok), key).is_ok() }
+                                                                                              else { let mut p = PasetoParser::<V4, Local>::default(); if which_claim == 0 { p.check_claim(AudienceClaim::from(lk(val))); } else { p.check_claim(SubjectClaim::from(lk(val))); } p.parse(lk($tok), key).is_ok() } }} }
+            let cn = if which_claim == 0 { "aud" } else { "sub" };
+            if !run!(&t_s) { return wit(format!("C15 a parser expecting {cn} = {val:?} rejects a token whose {cn} is exactly that string")); }
+            if val.contains(',') && run!(&t_a) { return wit(format!("C15 a parser expecting {cn} = {val:?} accepts a token whose {cn} is the ARRAY {arr:?}")); }
+            if serde_json::from_str::<serde_json::Value>(val).is_ok() && !val.starts_with('"') && run!(&t_p) { return wit(format!("C15 a parser expecting the STRING {cn} = {val:?} accepts a token whose {cn} is the JSON value {val}")); } } } } }
     // an expected claim registered through <typed claim>::default() concerns that claim's registered key (value "")
     { for (k, others) in [("jti", ["iss", "sub", "aud"]), ("iss", ["jti", "sub", "aud"]), ("sub", ["jti", "iss", "aud"]), ("aud", ["jti", "iss", "sub"])] {
         let t_has = v4tok(&format!("{{\"{k}\":\"\"}}")).0; let t_lacks = v4tok(&format!("{{\"{}\":\"\",\"{}\":\"\",\"{}\":\"\"}}", others[0], others[1], others[2])).0;
@@ -1056,6 +1112,16 @@ fn c16() {
           let r = if layer == 0 { let mut p = GenericParser::<V4, Local>::default(); p.validate_claim(CustomClaim::try_from(k).unwrap(), &record2); p.parse(lk(&t8), key).is_ok() } else { let mut p = PasetoParser::<V4, Local>::default(); p.validate_claim(CustomClaim::try_from(k).unwrap(), &record2); p.parse(lk(&t8), key).is_ok() };
           let seen = SEEN2.lock().unwrap().clone();
           if r || seen != vec![(k.to_string(), "\"blocked\"".to_string())] { return wit(format!("C16 a validator registered for the key {k:?} was invoked with {seen:?} and parse accepted = {r}; it must be invoked once with ({k:?}, \"blocked\") and its rejection honoured")); } } } }
+    // a validator is handed the payload's actual value: blank and white-space strings, false, 0, [], {} are values, not absence
+    { use std::sync::Mutex; static SEEN3: Mutex<Vec<(String, String)>> = Mutex::new(Vec::new());
+      fn record3(k: &str, v: &serde_json::Value) -> Result<(), PasetoClaimError> { SEEN3.lock().unwrap().push((k.to_string(), v.to_string())); Ok(()) }
+      for raw in ["\"\"", "\" \"", "\" \\t\"", "\"\\n\"", "false", "0", "[]", "{}", "\"null\"", "0.0", "\"\\u0000\""] { let t9 = v4tok(&format!("{{\"k\":{raw},\"iss\":{raw}}}")).0;
+        for layer in 0..2 { for which_claim in 0..2 { SEEN3.lock().unwrap().clear();
+          let ok = if layer == 0 { let mut p = GenericParser::<V4, Local>::default(); if which_claim == 0 { p.validate_claim(CustomClaim::try_from("k").unwrap(), &record3); } else { p.validate_claim(IssuerClaim::default(), &record3); } p.parse(lk(&t9), key).is_ok() }
+                   else { let mut p = PasetoParser::<V4, Local>::default(); if which_claim == 0 { p.validate_claim(CustomClaim::try_from("k").unwrap(), &record3); } else { p.validate_claim(IssuerClaim::default(), &record3); } p.parse(lk(&t9), key).is_ok() };
+          let want_v: serde_json::Value = serde_json::from_str(raw).unwrap(); let cn = if which_claim == 0 { "k" } else { "iss" };
+          let seen = SEEN3.lock().unwrap().clone();
+          if !ok || seen != vec![(cn.to_string(), want_v.to_string())] { return wit(format!("C16 a validator registered for {cn:?} on a token whose {cn} is {raw}: parse ok = {ok}, the validator was invoked with {seen:?}; it must run once with ({cn:?}, {want_v})")); } } } } }
     // every successful parse runs the validators again (public and local, generic and batteries-included)
     { let (kp, pk) = R::ed_keypair(9); let k64 = lkv(Key::<64>::from(kp)); let k32 = lkv(Key::<32>::from(pk)); let pkk = lkv(PasetoAsymmetricPublicKey::<V4, Public>::from(k32));
       let mut pb = PasetoBuilder::<V4, Public>::default(); pb.set_claim(SubjectClaim::from("alice"));
@@ -1158,6 +1224,11 @@ fn c17() {
         }} }
         if ver == 4 { run!(V4, &key) } else if s.len() <= 4 { run!(V3, &key3) }
     }}
+    // keys that differ by surrounding white space or case are different keys: no duplicate, and each appears under its own name
+    { for ks in [vec!["a", "a ", " a"], vec!["k", "K"], vec!["x", "x\t", "x\n"], vec!["Sub", "sub "], vec!["id", " id ", "ID"]] { let mut b = PasetoBuilder::<V4, Local>::default();
+          for (n, k) in ks.iter().enumerate() { b.set_claim(CustomClaim::try_from((k.to_string(), n as u64)).unwrap()); }
+          match b.build(&key) { Ok(t) => { if let Ok(j) = GenericParser::<V4, Local>::default().parse(lk(&t), key) { for (n, k) in ks.iter().enumerate() { if j[*k] != n as u64 { return wit(format!("C17 PasetoBuilder<V4,Local> with the distinct custom keys {ks:?}: the token does not carry {k:?} = {n}: {j}")); } } } }
+              Err(e) => return wit(format!("C17 PasetoBuilder<V4,Local> with the distinct custom keys {ks:?} (no key repeated): build fails: {e}")) } } }
     // blank values count like any other value; and long runs of distinct keys followed by a repeat of any earlier one
     { for k in ["iss", "sub", "aud", "jti"] { for (v1, v2) in [("", ""), ("", "x"), ("x", "")] { let mut b = PasetoBuilder::<V4, Local>::default();
           for v in [v1, v2] { match k { "iss" => { b.set_claim(IssuerClaim::from(lk(v))); } "sub" => { b.set_claim(SubjectClaim::from(lk(v))); } "aud" => { b.set_claim(AudienceClaim::from(lk(v))); } _ => { b.set_claim(TokenIdentifierClaim::from(lk(v))); } } }
@@ -1215,7 +1286,7 @@ fn c17_time_claims() {
 #[cfg(feature = "main_set")]
 fn c18() {
     let reserved = ["iss", "sub", "aud", "exp", "nbf", "iat", "jti"];
-    let mut keys: Vec<String> = vec!["".into(), " ".into(), "a".into()];
+    let mut keys: Vec<String> = vec!["".into(), " ".into(), "a".into(), "iss.".into(), "exp.id".into(), "sub.sub".into(), ".iss".into(), "x.iss".into(), "aud/x".into(), "jti:1".into(), "nbf-1".into(), "iat_".into(), "exp[0]".into()];
     for r in reserved { for v in [r.to_string(), r.to_uppercase(), format!(" {r}"), format!("{r} "), format!("{r}\0"), format!("{}{}", &r[..1].to_uppercase(), &r[1..]), format!("{r}s"), r[..2].to_string()] { keys.push(v); } }
     let alpha = ['i', 's', 'u', 'b', 'e', 'x', 'p', 'a', 't', 'j', 'n', 'f', 'd'];
     for a in alpha { for b in alpha { for c in alpha { keys.push([a, b, c].iter().collect()); } } }
